@@ -66,7 +66,8 @@ class SynthPE:
         lfanew = rng.choice([64, 128, 0xE8, 8 * rng.randrange(8, 40)])
         nsec = rng.randrange(1, 6)
         ndirs = rng.choice([16, 16, 16, rng.randrange(0, 16)])
-        optsize = struct.calcsize(f) + 8 * ndirs
+        # the COFF header says where the section table starts: the optional header may be followed by padding
+        optsize = struct.calcsize(f) + 8 * ndirs + rng.choice([0, 0, 0, 8, 16, 40])
         falign, salign = rng.choice([(0x200, 0x1000), (0x200, 0x2000), (0x1000, 0x1000)])
         hdrsz = lfanew + 24 + optsize + 40 * nsec
         hdrsz_al = (hdrsz + falign - 1) // falign * falign
@@ -83,11 +84,12 @@ class SynthPE:
             blobs.append((raw, data))
             raw += rs
             rva += (max(vs, 1) + salign - 1) // salign * salign
+        # PE32 images stay below 0x7E000000: the win32 loader puts the stack (up to 16 MB, SizeOfStackReserve) under 0x7ffff000
         op = {n: 0 for n in names}
         op.update(Magic=0x20B if plus else 0x10B, MajorLinkerVersion=rng.randrange(256), MinorLinkerVersion=rng.randrange(256),
                   SizeOfCode=rng.getrandbits(20), SizeOfInitializedData=rng.getrandbits(20), SizeOfUninitializedData=rng.getrandbits(12),
                   AddressOfEntryPoint=secs[0]["RVA"] + rng.randrange(0, secs[0]["VirtualSize"]), BaseOfCode=secs[0]["RVA"],
-                  ImageBase=(rng.randrange(1, 1 << 15) << 16) if not plus else (rng.randrange(1, 1 << 30) << 16),
+                  ImageBase=(rng.randrange(1, 0x7E00) << 16) if not plus else (rng.randrange(1, 1 << 30) << 16),
                   SectionAlignment=salign, FileAlignment=falign, MajorOperatingSystemVersion=rng.randrange(11), MinorOperatingSystemVersion=rng.randrange(4),
                   MajorImageVersion=rng.randrange(9), MinorImageVersion=rng.randrange(9), MajorSubsystemVersion=rng.randrange(11),
                   MinorSubsystemVersion=rng.randrange(4), Win32VersionValue=0, SizeOfImage=rva, SizeOfHeaders=hdrsz_al,
